@@ -5,6 +5,8 @@ CONSTANTS
   MaxW = 256
   FreshOnly = FALSE
   Ops = {"bin", "un", "slice", "compose", "cond", "ext", "simplify", "pickle", "mapw", "subst", "mset", "mget"}
+  Shape <- ShapeAny
+  LeafSet = {}
   AutoSimp = TRUE
   MapSpan = 6
   MapSrc = {}
